@@ -322,7 +322,7 @@ theorem filterMap_lookup (fields : List (String × Ty)) (kvs : List (Key × Val)
     · rename_i heq
       cases hk
       subst heq
-      simp [List.filterMap_cons, hf, List.lookup]
+      simp [hf]
     · rename_i hne
       simp only [List.filterMap_cons]
       cases k with
